@@ -69,7 +69,9 @@ type Explorer struct {
 	Workers  int
 	SolverK  string
 	Timeout  int
-	KnownFor map[string][]string // assertion label -> names of known-finding predicates that suppress it
+	Params   map[string]int
+	KnownFor map[string][]string
+	KnownPrefix map[string][]string // assertion label prefix -> names of known-finding predicates that suppress it
 	MaxViol  int
 	Samples  int
 	Deadline time.Time
@@ -295,6 +297,7 @@ func (ex *Exec) makeSample() map[string]interface{} {
 		in = append(in, fmt.Sprintf("%s#%d=%v", r.Tag, r.Ord, r.V))
 	}
 	s["inputs"] = in
+	s["values"] = ex.nondetValues(m)
 	s["decisions"] = len(ex.decisionsX)
 	if len(ex.observes) > 0 {
 		s["observed"] = ex.observes
@@ -617,12 +620,18 @@ func (ex *Exec) Assert(c *Term, label string) {
 	suppress := False
 	var names []string
 	if ex.exp != nil {
-		for _, n := range ex.exp.KnownFor[label] {
-			if k, ok := ex.known[n]; ok {
-				suppress = Or(suppress, k)
-				names = append(names, n)
+		for prefix, preds := range ex.exp.KnownPrefix {
+			if !strings.HasPrefix(label, prefix) {
+				continue
+			}
+			for _, n := range preds {
+				if k, ok := ex.known[n]; ok {
+					suppress = Or(suppress, k)
+					names = append(names, n)
+				}
 			}
 		}
+		sort.Strings(names)
 	}
 	neg := Not(c)
 	r, m := ex.feasible(And(neg, Not(suppress)))
@@ -719,4 +728,11 @@ func (ex *Exec) freshFloat(tag string) *Term {
 	v := FVar(ex.freshName(tag, 640))
 	ex.inputs = append(ex.inputs, v)
 	return v
+}
+
+func (ex *Exec) params() map[string]int {
+	if ex.exp != nil && ex.exp.Params != nil {
+		return ex.exp.Params
+	}
+	return ex.P.Params
 }
